@@ -95,7 +95,7 @@ def remap_curie_prefixes(converter: Converter, remapping: Mapping[str, str]) -> 
             record.prefix = new_prefix
         modified_records.append(record)
 
-    return Converter([*records.values(), *modified_records])
+    return Converter([*records.values(), *modified_records], delimiter=converter.delimiter)
 
 
 def remap_uri_prefixes(converter: Converter, remapping: Mapping[str, str]) -> Converter:
@@ -133,7 +133,7 @@ def remap_uri_prefixes(converter: Converter, remapping: Mapping[str, str]) -> Co
             )
             record.uri_prefix = new_uri_prefix
         records.append(record)
-    return Converter(records)
+    return Converter(records, delimiter=converter.delimiter)
 
 
 def rewire(converter: Converter, rewiring: Mapping[str, str]) -> Converter:
@@ -178,7 +178,7 @@ def rewire(converter: Converter, rewiring: Mapping[str, str]) -> Converter:
     #     if prefix not in converter.synonym_to_prefix:
     #         records.append(Record(prefix=prefix, uri_prefix=new_uri_prefix))
 
-    return Converter(records)
+    return Converter(records, delimiter=converter.delimiter)
 
 
 def _get_curie_preferred_or_synonym(record: Record, upgrades: Mapping[str, str]) -> str | None:
